@@ -287,7 +287,18 @@ Outcome run_workload(const Spec& s, Env& env, int phase, bool retry_failed_call 
             case 3: { size_t n = size_t(16 + r.below(500)), got = 0; void* p = arena.alloc_reusable<uint8_t>(n, Out(got)); if (!p) err = make_error(Error::kOutOfMemory); else { memset(p, 0x5A, got); held.push_back(Reusable{p, got}); } break; }
             case 4: { if (held.empty()) break; size_t k = size_t(r.below(held.size())); arena.free_reusable(held[k].p, held[k].size); held.erase(held.begin() + long(k)); break; }
             case 5: { uint64_t d[8]; for (auto& x : d) x = r.chance(1, 3) ? 7 : r.next(); size_t sz = size_t(1) << r.below(7); size_t off = 0; err = env.pool->add(d, sz, Out(off)); if (err == Error::kOk) sum += off * 31 + sz; break; }
-            default: { err = env.str.append_format("%llu,", (unsigned long long)(r.next() & 0xffff)); break; }
+            default: {
+              // heap string: mostly appends; sometimes the content is replaced through one of the assign paths
+              // (String::prepare(kAssign)) by something longer than the current capacity
+              uint64_t v = r.next() & 0xffff; uint32_t how = uint32_t(r.below(12));
+              size_t grow = (r.chance(1, 2) && env.str.size() < 30000 ? env.str.size() * 2 + 64 : env.str.size()) + 1 + size_t(r.below(64));   /* never a function of capacity(): a recycled string keeps its buffer */
+              if (how == 0) err = env.str.assign_chars(char('a' + v % 26), grow);
+              else if (how == 1) { std::string tmp(grow, char('A' + v % 26)); err = env.str.assign(Span<const char>(tmp.data(), tmp.size())); }
+              else if (how == 2) { std::vector<uint8_t> bytes(grow / 2 + 1, uint8_t(v)); err = env.str.assign_hex(bytes.data(), bytes.size()); }
+              else if (how == 3) err = env.str.assign_format("%0*llu", int(grow), (unsigned long long)v);
+              else err = env.str.append_format("%llu,", (unsigned long long)v);
+              break;
+            }
           }
           if (err != Error::kOk) { if (err == Error::kOutOfMemory || faults_fired_here()) { out.first_error = err; return out; } }
         }
